@@ -104,12 +104,65 @@ def s1_extract(ctx):
                 if equal(da, hi_spec - DUR) or equal(da, DUR - hi_spec):
                     rel = v if equal(da, hi_spec - DUR) else {'<': '>', '>': '<', '=': '='}[v]
                     t1_over = rel == '>'
+        # a path that took `if n:` on a row count the walk could not evaluate may be infeasible: with the rows actually read in this sign case
+        # (min(t1, dur) - max(0, t0)) the count is decided, and a path whose recorded truth contradicts it is dropped
+        if t0_neg is not None and t1_over is not None:
+            present_ = (DUR if t1_over else hi_spec) - (Lin.const(0) if t0_neg else (S - half))
+            case = [(half - S - Lin.const(1)) if t0_neg else (S - half), (half - S) if t0_neg else (S - half),
+                    (hi_spec - DUR - Lin.const(1)) if t1_over else (DUR - hi_spec), (hi_spec - DUR) if t1_over else (DUR - hi_spec)]
+            infeasible = False
+            for k, v in st.facts.items():
+                if k[0] == 'truth' and is_t(k[1]) and k[1][1] in ('Add', 'Sub', 'Neg', 'USub', 'Mult'):
+                    b2 = dict(binds)
+                    for x in subterms(k[1]):
+                        if is_t(x) and x[1] == 'index' and x[3] == C(0) and is_t(x[2]) and x[2][1] == 'attr' and x[2][3] == 'shape' and any(y == rd for y in subterms(x[2][2])):
+                            b2[x] = present_
+                        if is_t(x) and x[1] == 'call' and x[2] == 'len' and any(y == rd for y in subterms(x)):
+                            b2[x] = present_
+                    try:
+                        got_ = NF(b2)(k[1])
+                    except Exception:
+                        continue
+                    if any(isinstance(a_, tuple) and a_[0] in ('index', 'attr', 'call') for a_ in got_.d):
+                        continue
+                    saved_ = list(I.nonneg)
+                    I.nonneg = saved_ + case
+                    try:
+                        sg_ = I.sign(got_)
+                    finally:
+                        I.nonneg = saved_
+                    if (sg_ in ('+', '-') and v is False) or (sg_ == '0' and v is True):
+                        infeasible = True
+            if infeasible:
+                continue
         seen_cases.add((t0_neg, t1_over))
         # structure of the result: nested vstack((zeros, w)) / vstack((w, zeros)), unwrapped from the outside in
         cur = val
         before = after = 0
         ok_pad = True
         pads = []
+        same_base = False
+        if is_t(cur) and cur[1] == 'call' and cur[2] == 'np.pad' and len(cur) >= 6:
+            # np.pad(w, ((rows_before, rows_after), (0, 0)), mode='constant'): both zero blocks at once, each row count relative to the UNPADDED block
+            inner, widths = cur[4], cur[5]
+            kws = {x[2]: x[3] for x in cur[6:] if is_t(x) and x[1] == 'kw'}
+            mode = kws.get('mode', cur[6] if len(cur) > 6 and not (is_t(cur[6]) and cur[6][1] == 'kw') else C('constant'))
+            okw = is_t(widths) and widths[1] == 'tuple' and len(widths) == 4 and all(is_t(w_) and w_[1] == 'tuple' and len(w_) == 4 for w_ in widths[2:]) and \
+                widths[3][2] == C(0) and widths[3][3] == C(0)
+            if mode != C('constant') or ('constant_values' in kws and kws['constant_values'] not in (C(0), C(0.0))):
+                probs.setdefault('the block is padded with np.pad in mode %s: rows outside the recording are not zeros' % show(mode), 1)
+            elif not okw:
+                probs.setdefault('UNDECIDED pad widths of np.pad `%s` not recognised' % show(widths)[:60], 1)
+            else:
+                same_base = True
+                nb_, na_ = widths[2][2], widths[2][3]
+                if na_ != C(0):
+                    after += 1
+                    pads.append(('after', na_, inner))
+                if nb_ != C(0):
+                    before += 1
+                    pads.append(('before', nb_, inner))
+            cur = inner
         while is_t(cur) and cur[1] == 'call' and cur[2] in ('np.vstack', 'np.concatenate'):
             tup = cur[4]
             if not (is_t(tup) and tup[1] == 'tuple' and len(tup) == 4):
@@ -141,10 +194,11 @@ def s1_extract(ctx):
         # number of rows of every pad, evaluated from the inside out: rows present after the read = min(t1, dur) - max(0, t0) in this sign case
         if ok_pad and pads and t0_neg is not None and t1_over is not None:
             present = (DUR if t1_over else hi_spec) - (Lin.const(0) if t0_neg else (S - half))
+            present0 = present
             for side, rows_t, inner in reversed(pads):
                 b2 = dict(binds)
-                b2[T('index', T('attr', inner, 'shape'), C(0))] = present
-                b2[T('call', 'len', C(0), inner)] = present
+                b2[T('index', T('attr', inner, 'shape'), C(0))] = present0 if same_base else present
+                b2[T('call', 'len', C(0), inner)] = present0 if same_base else present
                 got = NF(b2)(rows_t)
                 want = (half - S) if side == 'before' else (hi_spec - DUR)
                 if any(isinstance(k, tuple) and k[0] in ('index', 'attr', 'call') for k in got.d):
